@@ -6,7 +6,7 @@
 set -u
 cd "$(dirname "$0")/.."
 DIFF=$(realpath "$1"); PROP=$2; TIER=${3:-quick}
-TAG=$(echo "$DIFF" | md5sum | cut -c1-8)
+TAG=$(echo "$DIFF" | md5sum | cut -c1-8)-$$
 WT=/tmp/wt-refactor-$TAG
 git -C /repo worktree remove --force $WT >/dev/null 2>&1
 git -C /repo worktree add --detach $WT HEAD >/dev/null 2>&1 || { echo "worktree failed"; exit 2; }
